@@ -190,10 +190,16 @@ func writesThrough(param ssa.Value, f *ssa.Function, own map[*ssa.Parameter]bool
 	}
 	// values that alias the parameter's storage
 	alias := map[ssa.Value]bool{param: true}
+	localHolds := map[*ssa.Alloc]bool{} // local variables that hold an alias
 	for changed := true; changed; {
 		changed = false
 		for _, b := range f.Blocks {
 			for _, ins := range b.Instrs {
+				if st, isStore := ins.(*ssa.Store); isStore && alias[st.Val] {
+					if a, isAlloc := st.Addr.(*ssa.Alloc); isAlloc && !localHolds[a] {
+						localHolds[a], changed = true, true
+					}
+				}
 				v, ok := ins.(ssa.Value)
 				if !ok || alias[v] {
 					continue
@@ -228,6 +234,14 @@ func writesThrough(param ssa.Value, f *ssa.Function, own map[*ssa.Parameter]bool
 				case *ssa.UnOp:
 					// a slice, map or pointer loaded from shared storage reaches shared storage
 					if x.Op == token.MUL && alias[x.X] && isSharedStorage(x.Type()) {
+						alias[v], changed = true, true
+					}
+					// ... or loaded from a local variable an alias was stored in
+					if a, isAlloc := x.X.(*ssa.Alloc); isAlloc && x.Op == token.MUL && localHolds[a] {
+						alias[v], changed = true, true
+					}
+				case *ssa.Extract:
+					if alias[x.Tuple] && isSharedStorage(x.Type()) {
 						alias[v], changed = true, true
 					}
 				}
@@ -333,3 +347,74 @@ func anyOrigin(v ssa.Value, pred func(ssa.Value) bool) bool {
 }
 
 var _ = core.Undecided
+
+// checkNoWritesThroughSharedResults: a function that returns a reference (map, slice, pointer) to package-level
+// storage - a table built once and handed to every caller - hands out shared mutable state. No caller may write
+// through what it is given (map update, element store, append/copy/delete, in-place sort): the write is seen by every
+// later caller (and by other goroutines). Caching a table is fine; writing into the cached table is not.
+func checkNoWritesThroughSharedResults(c *core.Ctx, key string, p *progFacts) int {
+	shared := map[*ssa.Function]*ssa.Global{}
+	for _, f := range p.funcs {
+		if f.Parent() != nil || f.Pkg == nil || c.RelOf(f.Pkg.Pkg) == "" {
+			continue
+		}
+		for _, b := range f.Blocks {
+			for _, ins := range b.Instrs {
+				ret, ok := ins.(*ssa.Return)
+				if !ok {
+					continue
+				}
+				for _, r := range ret.Results {
+					if !isSharedStorage(r.Type()) {
+						continue
+					}
+					for _, o := range origins(r) {
+						if u, ok := o.(*ssa.UnOp); ok && u.Op == token.MUL {
+							if g, ok := u.X.(*ssa.Global); ok && g.Pkg != nil && c.RelOf(g.Pkg.Pkg) != "" {
+								shared[f] = g
+							}
+						}
+						if g, ok := o.(*ssa.Global); ok && g.Pkg != nil && c.RelOf(g.Pkg.Pkg) != "" {
+							shared[f] = g
+						}
+					}
+				}
+			}
+		}
+	}
+	n := 0
+	var bad []string
+	var pos token.Pos
+	var fs []*ssa.Function
+	for f := range shared {
+		fs = append(fs, f)
+	}
+	sort.Slice(fs, func(i, j int) bool { return fs[i].Pos() < fs[j].Pos() })
+	for _, f := range fs {
+		for _, site := range p.callers[f] {
+			v := site.Value()
+			if v == nil {
+				continue
+			}
+			n++
+			g := site.Parent()
+			roots := []ssa.Value{v}
+			if refs := v.Referrers(); refs != nil {
+				for _, r := range *refs {
+					if ex, ok := r.(*ssa.Extract); ok {
+						roots = append(roots, ex)
+					}
+				}
+			}
+			for _, root := range roots {
+				if w := writesThrough(root, g, map[*ssa.Parameter]bool{}, 0, map[*ssa.Function]bool{}); w != nil {
+					bad = append(bad, fmt.Sprintf("%s: %s returns package-level storage (%s); %s writes through it at %s (%s)", c.PosStr(site.Pos()), fnKey(f), shared[f].Name(), fnKey(g), c.PosStr(w.Pos()), w.String()))
+					pos = w.Pos()
+				}
+			}
+		}
+	}
+	sort.Strings(bad)
+	c.Ob(key, len(bad) == 0, pos, "%s", first(uniqStrings(bad), 3))
+	return n
+}
